@@ -58,3 +58,15 @@ package server
 //@   call Cache.Get#* asserts[C15] rawlookup: !s.depsCheck && arg2 == 0 && arg3 == acKey(s, old(req.ActionDigest.Hash), req.InstanceName) && arg4 == 0 - 1 && arg5 == 0
 //@   call ActionResult#* asserts[C11] validates: !s.depsCheck && arg0 == result
 //@   call maybeInline#* asserts[C06] onlyhits: s.depsCheck && result != nil
+
+// maybeInline (C01, C02, C11): bytes that are taken out of an ActionResult go into the CAS under the
+// digest stated next to them (or, when none is stated, under a digest with their own length);
+// bytes that are put into one are fetched from the CAS under exactly the stated digest.
+//@ func (s *grpcServer) maybeInline(ctx context.Context, inline bool, slice *[]byte, digest **pb.Digest, inlinedSoFar *int64) error
+//@   serves C01 C02 C11 C14
+//@   requires s != nil && s.cache != nil && s.accessLogger != nil && ctx != nil && slice != nil && digest != nil && inlinedSoFar != nil
+//@   noframe
+//@   modifies pointee(slice), pointee(digest), pointee(inlinedSoFar), casAcked, putN, probeN, probeFound, icloseN, iclosed
+//@   call Cache.Contains#* asserts[C01] probe: arg2 == 1 && deref(digest) != nil && arg3 == deref(digest).Hash && arg4 == deref(digest).SizeBytes
+//@   call Cache.Put#* asserts[C01] deinlined: arg2 == 1 && deref(digest) != nil && arg3 == deref(digest).Hash && arg4 == deref(digest).SizeBytes
+//@   call getBlobData#* asserts[C02] inlined: arg2 == deref(digest).Hash && arg3 == deref(digest).SizeBytes && arg3 > 0
